@@ -14,6 +14,16 @@ FIX = {
                                               ("        if (self.writeb.get()):\r\n            self.data[wadd] = self.writedatab.get()", "        if (self.write_b.get()):\r\n            self.data[waddb] = self.writedata_b.get()")]),
  'sp-negative-zero': ('py4hw/helper.py', [("        s,e,m = FloatingPointHelper.fp_to_parts(v)\n\n        if (m == 0):\n            return 0,0,0\n        else:\n            if (e >= 128):", "        s,e,m = FloatingPointHelper.fp_to_parts(v)\n\n        if (m == 0):\n            v = math.copysign(1, v)\n            s = 0 if v > 0 else 1\n            return s,0,0\n        else:\n            if (e >= 128):")]),
  'dualport-read-before-write': ('py4hw/logic/storage.py', [("        self.readdata_a.prepare(self.data[radda])\r\n        \r\n        if (self.write_a.get()):", "        self.readdata_a.prepare(self.data[radda])\r\n        self.readdata_b.prepare(self.data[raddb])\r\n        \r\n        if (self.write_a.get()):"), ("            self.data[wadda] = self.writedata_a.get()\r\n            \r\n        self.readdata_b.prepare(self.data[raddb])\r\n        \r\n", "            self.data[wadda] = self.writedata_a.get()\r\n            \r\n")]),
+ 'wire-move-checks-first': ('py4hw/base.py', [
+    ("    def rename(self, newname):\r\n        del self.parent._wires[self.name]\r\n", "    def rename(self, newname):\r\n        if (newname in self.parent._wires.keys()):\r\n            raise Exception('a wire named {} already exist'.format(newname))\r\n        del self.parent._wires[self.name]\r\n"),
+    ("    def reparent(self, newparent):\r\n        del self.parent._wires[self.name]\r\n", "    def reparent(self, newparent):\r\n        if (self.name in newparent._wires.keys()):\r\n            raise Exception('a wire named {} already exist'.format(self.name))\r\n        del self.parent._wires[self.name]\r\n"),
+    ("    def reparentAndRename(self, newparent, newname):\r\n        del self.parent._wires[self.name]\r\n", "    def reparentAndRename(self, newparent, newname):\r\n        if (newname in newparent._wires.keys()):\r\n            raise Exception('a wire named {} already exist'.format(newname))\r\n        del self.parent._wires[self.name]\r\n")]),
+ 'checkport-inout': ('py4hw/debug.py', [("    if (not(port in parent.inPorts or port in parent.outPorts)):", "    if (not(port in parent.inPorts or port in parent.outPorts or port in parent.inOutPorts)):")]),
+ 'abs-structure-name': ('py4hw/logic/arithmetic.py', [
+    ("        if (self.a.getWidth() == self.r.getWidth()):\n            return f'Abs{self.a.getWidth()}'\n        else:\n            return f'Abs{self.a.getWidth()}_{self.r.getWidth()}'\n",
+     "        if (self.a.getWidth() == self.r.getWidth()):\n            s = f'Abs{self.a.getWidth()}'\n        else:\n            s = f'Abs{self.a.getWidth()}_{self.r.getWidth()}'\n        if (len(self.outPorts) > 1):\n            s += '_inv'  # the optional `inverted` output changes the interface\n        return s\n")]),
+ 'reg-negative-reset-name': ('py4hw/logic/storage.py', [
+    ("        if not(self.reset_value == 0): msg += '_v{}'.format(self.reset_value)", "        if not(self.reset_value == 0): msg += '_v{}'.format(self.reset_value).replace('-', 'm')")]),
  'hp-subnormal-exponent': ('py4hw/helper.py', [("            # subnormal numbers\r\n            e = -16\r\n", "            # subnormal numbers\r\n            e = -14\r\n")]),
 }
 path, reps = FIX[fid]
@@ -22,7 +32,7 @@ s = open(p, newline='').read()
 for old, new in reps:
     if s.count(old) == 0 and '\r\n' in old:       # file with LF line endings
         old, new = old.replace('\r\n', '\n'), new.replace('\r\n', '\n')
-    if s.count(old) != 1:
+    if s.count(old) != 1 and not (fid == 'wire-move-checks-first' and s.count(old) == 2):      # Wire and BidirWire carry the same three methods
         sys.exit('fix %s: pattern occurs %d times in %s' % (fid, s.count(old), path))
     s = s.replace(old, new)
 open(p, 'w', newline='').write(s)
